@@ -464,7 +464,7 @@ CONDS = [None, "if-range-old", "if-range-new", "if-none-match-same", "if-none-ma
 
 def units(tier: str, seed: int) -> list[Unit]:
     us = []
-    n = 500 if tier == "quick" else 30000
+    n = 1500 if tier == "quick" else 30000
     for i in range(6):
         us.append(Unit(f"confine{i}", unit_confine, {"n": n, "offset": i}))
     us.append(Unit("confine-fixed", unit_confine_fixed, {}))
